@@ -476,7 +476,7 @@ func buildCLI() (string, func(), error) {
 	}
 	bin := filepath.Join(dir, "goag")
 	cmd := exec.Command("go", "build", "-o", bin, "./cmd/goag")
-	cmd.Dir = "/repo"
+	cmd.Dir = core.RepoDir()
 	cmd.Env = append(os.Environ(), "GOFLAGS=-mod=mod", "GOPROXY=off", "GOSUMDB=off", "GOTOOLCHAIN=local")
 	if out, err := cmd.CombinedOutput(); err != nil {
 		os.RemoveAll(dir)
